@@ -67,6 +67,15 @@ def generate(rng, tier):
             chal = rbytes(rng, 16)
             line = "srv.server %s %s %s %s %s | %s%s" % (enc("alice"), le32(1).hex(), salt.hex(), A.hex(), m1.hex(), le32(1).hex(), chal.hex())
             cs.append(Case(line, "server-interleave-S-low-zeros=%d" % zeros, "ok %s %s %s ~48" % (K.hex(), m2.hex(), chal.hex())))
+    for zeros in range(31):
+        body = bytearray(b if b else 1 for b in rbytes(rng, 32))
+        for i in range(zeros): body[i] = 0
+        if zeros + 1 < 31: body[zeros + 1] = 0
+        body[31] = (body[31] & 0x7f) or 1
+        A = bytes(body); salt = rbytes(rng, 32); chal = rbytes(rng, 16)
+        K = pyref.interleave(A); m1 = pyref.M1(b"ALICE", salt, A, le32(10), K)
+        cs.append(Case("srv.server %s %s %s %s %s | %s%s" % (enc("alice"), le32(1).hex(), salt.hex(), A.hex(), m1.hex(), le32(1).hex(), chal.hex()),
+                       "server-interleave-inner-zero-after-run", "ok %s %s %s ~48" % (K.hex(), pyref.M2(A, m1, K).hex(), chal.hex())))
     # hidden state between calls would break honest logins only after a particular history (e.g. a client that
     # first talked to a server announcing its own group): interleave such calls with the logins so that every
     # shard of the run sees standard logins *after* non-standard-group client calls on the same thread
